@@ -57,6 +57,9 @@ pub trait AttrTrait {
 }
 
 #[entrait(AttrInvImpl, delegate_by = DelegateAttrInv)]
+#[doc = "M16"]
+#[deprecated(note = "M17")]
+#[allow(clippy::M18)]
 pub trait AttrInv {
     #[doc = "M12-mirrored3"]
     fn one(&self, a: u8) -> u8;
@@ -108,4 +111,12 @@ impl AttrPatImpl for AttrPatTarget {
     pub fn one<D>(deps: &D, #[allow(unused_variables)] (a, b): (u8, u8), #[allow(unused_variables)] _: u8) -> u8 {
         a - b
     }
+}
+
+// trait-level attributes of a trait with a DYNAMIC delegation target stay on the trait as well
+#[entrait(AttrDynImpl, delegate_by = ref)]
+#[doc = "M19"]
+#[must_use = "M20"]
+pub trait AttrDyn {
+    fn one(&self, a: u8) -> u8;
 }
